@@ -6,7 +6,7 @@ Line-protocol interpreter of the C11 model.
 
   gsplit  nrow ncol keep a0 a1 c p q | mask | acs | xs | ys      -> ok input | target | n free
   usplit  nrow ncol keep a0 a1 count p q | mask | acs | chosen   -> ok input | target | count free   (last group empty when nothing is drawn)
-  hsplit  nrow ncol keep a0 a1 dir | mask | acs | xs | ys (float32 linspace values, one integer scale)                        -> ok input | target
+  hsplit  nrow ncol keep a0 a1 dir form | mask | acs | xs | ys (float32 linspace values, one integer scale)                        -> ok input | target
   seed    | filename code points | slice code points             -> ok seed | tuple
   fwd     kind B C nrow ncol keep a0 a1 dir useSeed | <per sample: mask | acs | filename | slice | kspace |
           c p q idx seed | tuple | xs-or-chosen | ys>             -> ok <per sample: in | tgt | inK | tgtK>
@@ -91,15 +91,28 @@ def opUSplit (hdr mask acs chosen : List Int) : String :=
       | .ok (i, t) => okG [ofGrid i, ofGrid t, if count == 0 || free == 0 then [] else [count, free]]
   | _ => "err BadOp"
 
+def formOf : Int → Option OptForm
+  | 0 => some .member
+  | 1 => some .lower
+  | 2 => some .upper
+  | 3 => some .mixed
+  | _ => none
+
+/-- `form`: how the direction option was handed over (enum member / lower / UPPER / MiXeD-case string); the code
+compares it with `==`, under which every form selects the same branch (`resolveDir .eq`) -/
 def opHSplit (hdr mask acs xs ys : List Int) : String :=
   match hdr with
-  | [nrow, ncol, keep, a0, a1, dir] =>
-    match mkShape nrow ncol keep mask acs, dirOf dir with
-    | .error e, _ => e
-    | _, none => "err BadOp"
-    | .ok s, some d =>
-      let (i, t) := halfSplit d xs ys (keep != 0) a0 a1 s.nrow s.ncol s.mask s.acs
-      okG [ofGrid i, ofGrid t]
+  | [nrow, ncol, keep, a0, a1, dir, form] =>
+    match mkShape nrow ncol keep mask acs, dirOf dir, formOf form with
+    | .error e, _, _ => e
+    | _, none, _ => "err BadOp"
+    | _, _, none => "err BadOp"
+    | .ok s, some d, some f =>
+      match resolveDir .eq f d with
+      | none => "err NoBranch"
+      | some d' =>
+        let (i, t) := halfSplit d' xs ys (keep != 0) a0 a1 s.nrow s.ncol s.mask s.acs
+        okG [ofGrid i, ofGrid t]
   | _ => "err BadOp"
 
 def outGroups (o : SplitOut) : List (List Int) :=
